@@ -9,6 +9,8 @@ package refcount
 //	site 2: the asynchronous path of released(), before mtx is taken (obj: the nonce)
 //	site 3: RefCount.removeRef, before mtx is taken (obj: the *Ref)
 //	site 4: RefCount.resolve is returning (deferred; runs before its done channel is closed) (obj: the nonce)
+//	site 5: RefCount.Access, the watcher goroutine of one callback invocation: woken by a change of the value
+//	        (its wait channel was closed), before it cancels the callback's context (obj: that context)
 var VerifHook func(site int, obj any)
 
 func verifPoint(site int, obj any) {
